@@ -284,6 +284,20 @@ def oracle(ctx, ss, np, rng):
             ctx.violation(f'{K.__name__}({bad}) accepted (values {p.values})', dict(kind=K.__name__, v=str(bad)))
         except Exception:
             pass
+    # durations and rates handed to a module through a distribution: what the module receives, times its own step, is the original quantity
+    for (u_, pu_, pdt_) in (('day', 'week', 1.0), ('year', 'day', 1.0), ('week', 'day', 3.0), ('day', 'year', 0.1), ('year', 'year', 0.25)):
+        for kind, v in (('dur', 10), ('dur', 2.5), ('rate', 3), ('rate', 0.7)):
+            n += 1; ctx.dist('oracle:timepar inside a distribution')
+            W = dict(kind=kind, v=v, unit=u_, parent_unit=pu_, parent_dt=pdt_, probe='dist-wrapped')
+            try:
+                K = ss.dur if kind == 'dur' else ss.rate
+                ref = K(v, unit=u_, parent_unit=pu_, parent_dt=pdt_).init(); want = float(np.atleast_1d(np.asarray(ref.values, dtype=float))[0])
+                d = ss.constant(v=K(v, unit=u_, parent_unit=pu_, parent_dt=pdt_).init(), strict=False); d.init()
+                got = float(np.asarray(d.rvs(3), dtype=float)[0])
+            except Exception as E:
+                ctx.dist('oracle:timepar inside a distribution rejected'); continue
+            if not close(got, want, 1e-9):
+                ctx.violation(f'ss.constant(v=ss.{kind}({v!r}, {u_!r})) in a parent with unit {pu_} and dt {pdt_} yields {got} per-step units; the parameter alone converts to {want}', W)
     ctx.cov['oracle_evaluations'] = n
 
 
